@@ -181,9 +181,10 @@ bool runcrypt::execute_encrypt(size_t fsize, u8_t *r_buf)
   resultprint->resetPercentage();
   buffergroup::del_instance();
   TIMER_END(AES_Encryption_Time)
-  // a failed write (disk full, quota, device error) must not be reported as success
+  // a failed write (disk full, quota, device error) or a failed read of the input must not be reported as success
+  bool rerr = ferror(fin) != 0;
   bool werr = fflush(out) != 0 || ferror(out);
-  if (!werr)
+  if (!werr && !rerr)
   {
     // 写入hamc
     TIMER_START(Hashing_Time)
@@ -196,13 +197,15 @@ bool runcrypt::execute_encrypt(size_t fsize, u8_t *r_buf)
   // 释放空间
   resultprint->printtask("Releasing allocated memory");
   release(iv, mode);
-  if (werr)
+  if (rerr)
+    resultprint->printresv(6);
+  else if (werr)
     resultprint->printresv(5);
   else
     resultprint->printenc(); // 打印结果
   over();                  // 关闭文件
   TIMER_END(Total_Time);   // 打印时间
-  return !werr;
+  return !werr && !rerr;
 }
 /*
 execute_decrypt:解密执行过程
@@ -235,7 +238,9 @@ bool runcrypt::execute_decrypt(size_t fsize)
     resultprint->printtask("Releasing allocated memory");
     buffergroup::del_instance();
     release(iv, mode);
-    if (fflush(out) != 0 || ferror(out))
+    if (ferror(fin))
+      res = 6; // a failed read of the input must not be reported as success
+    else if (fflush(out) != 0 || ferror(out))
       res = 5; // a failed write must not be reported as success
   }
   resultprint->printresd(res); // 打印结果
